@@ -25,7 +25,7 @@ try:
     old = v.get("checks", {})
     for c in checks:
         r = subprocess.run(["./check", c], cwd=V, env=dict(os.environ, VERIF_REPO=wt), capture_output=True, text=True)
-        res = {"exit": r.returncode, "lines": [l for l in r.stdout.splitlines() if "VIOLATION" in l or "KNOWN" in l][:3],
+        res = {"exit": r.returncode, "lines": ([l for l in r.stdout.splitlines() if l.startswith("VIOLATION")][:2] + [l[:160] for l in r.stdout.splitlines() if l.startswith("KNOWN")][:3]),
                "summary": (r.stdout.splitlines() or [""])[-1]}
         if c in old and old[c].get("exit") != res["exit"]:
             v.setdefault("before_strengthening", {})[c] = old[c]
